@@ -12,6 +12,7 @@
 #include "xcmp.hpp"
 #include "hexsim.hpp"
 
+#include <cerrno>
 #include <dirent.h>
 
 int hexsim_main(int argc, const char **argv);
@@ -85,10 +86,11 @@ struct Host {
   int stackMode = sim::STACK_ZERO; size_t stackBytes = 1400000; uint64_t stackSeed = 0; size_t shift = 0;
   int arenaMode = 0; uint64_t arenaSeed = 0;     // C12 library level: backing store of the Processor (0 zero, 1 ones, 2 prng, 3 pointerish, 4 stale)
   unsigned envPad = 0; std::string lang;
-  bool pristine() const { return heapMode == sim::heap::ZERO && stackMode == sim::STACK_ZERO && arenaMode == 0 && !padSeed && !baseShift && !shift && !envPad && lang.empty(); }
+  int err = 0;                                   // errno left behind by whatever ran before
+  bool pristine() const { return heapMode == sim::heap::ZERO && stackMode == sim::STACK_ZERO && arenaMode == 0 && !padSeed && !baseShift && !shift && !envPad && lang.empty() && !err; }
   std::string str() const {
     return std::string("heap=") + sim::heap::modeName(heapMode) + (padSeed ? "+pad" : "") + (shuffle ? "+shuffle" : "") + (baseShift ? "+shift" : "") +
-           " stack=" + std::to_string(stackMode) + (shift ? "+shift" : "") + " arena=" + std::to_string(arenaMode) + (envPad ? " env" : "");
+           " stack=" + std::to_string(stackMode) + (shift ? "+shift" : "") + " arena=" + std::to_string(arenaMode) + (envPad ? " env" : "") + (err ? " errno=" + std::to_string(err) : "");
   }
 };
 Host hostFrom(const Json &op) {
@@ -105,6 +107,7 @@ Host hostFrom(const Json &op) {
   h.stackSeed = op.getU64("stack_seed"); h.shift = (size_t)(op.getU64("shift") % 8192);
   h.arenaMode = (int)(op.getU64("arena") % 5); h.arenaSeed = op.getU64("arena_seed");
   h.envPad = (unsigned)(op.getU64("env_pad") % 4096); h.lang = op.getStr("lang");
+  h.err = (int)(op.getU64("errno") % 134);
   return h;
 }
 Json hostToJson(Json op, const Host &h) {
@@ -117,6 +120,7 @@ Json hostToJson(Json op, const Host &h) {
   if (h.arenaMode) { op["arena"] = h.arenaMode; op["arena_seed"] = (unsigned long long)h.arenaSeed; }
   if (h.envPad) op["env_pad"] = h.envPad;
   if (!h.lang.empty()) op["lang"] = h.lang;
+  if (h.err) op["errno"] = h.err;
   return op;
 }
 Host randomHost(Rng &r, bool c12) {
@@ -133,6 +137,7 @@ Host randomHost(Rng &r, bool c12) {
   if (c12) { h.arenaMode = (int)r.below(5); h.arenaSeed = r.next() >> 16; }
   if (r.chance(1, 4)) h.envPad = 1 + (unsigned)r.below(4000);
   if (r.chance(1, 4)) { static const char *l[] = {"C", "POSIX", "en_US.UTF-8", "tr_TR.UTF-8", "de_DE"}; h.lang = l[r.below(5)]; }
+  if (r.chance(1, 3)) { static const int e[] = {ERANGE, EINTR, ENOENT, EAGAIN, EINVAL, ENOMEM}; h.err = e[r.below(6)]; }
   return h;
 }
 void applyEnv(const Host &h) {
@@ -152,7 +157,7 @@ sim::Trapped underHost(const Host &h, const std::function<int()> &f) {
   applyEnv(h);
   sim::Trapped t;
   sim::heap::begin(heapCfg(h));
-  sim::callOnDirtyStack(h.stackMode, h.stackBytes, h.stackSeed, h.shift, [&]() { t = sim::runTrapped(f, 90); });
+  sim::callOnDirtyStack(h.stackMode, h.stackBytes, h.stackSeed, h.shift, [&]() { t = sim::runTrapped([&]() { errno = h.err; return f(); }, 90); });
   sim::heap::end();
   return t;
 }
@@ -199,6 +204,7 @@ bool observe(void *c, hexsim::Processor &p) {
 
 struct C12View {
   std::string image, file, input, progName;
+  unsigned tailCut = 0;
   bool trace = false; uint64_t maxCycles = 0; bool hasMax = false;
   std::vector<Host> hosts; std::vector<int> toolLevel;   // 0 library, 1 hexsim main, 2 xrun main
   std::string xsource;
@@ -302,6 +308,7 @@ public:
         op["corpus"] = ce->name;
       } else if (k < 6) op["hex"] = sim::toHex(unwrittenTemplate(r));
       else { gen::ImgCfg ic; ic.maxWords = 96; Rng ir = r.fork(3); op["hex"] = sim::toHex(gen::makeImage(ir, ic)); }
+      if (!op.has("corpus") && r.chance(1, 4)) op["tail_cut"] = (unsigned long long)(1 + r.below(3));
       ops.push(op);
     }
     {
@@ -421,7 +428,7 @@ public:
   }
   void simplifyHost(const Json &op, std::vector<Json> &out) {
     // Towards the pristine host state, one dimension at a time.
-    for (const char *k : {"pad_seed", "base_shift", "shuffle", "shift", "env_pad", "lang", "arena", "stack"}) {
+    for (const char *k : {"pad_seed", "base_shift", "shuffle", "shift", "env_pad", "lang", "arena", "stack", "errno"}) {
       if (!op.has(k)) continue;
       Json c = op; c.erase(k);
       if (std::string(k) == "stack") c["stack"] = 1;
@@ -451,14 +458,18 @@ public:
       if (k == "image") {
         if (op.has("file_b16")) v.file = sim::fromHex(op.getStr("file_b16"));
         else if (op.has("corpus")) { if (auto *c = corpusByName(op.getStr("corpus"))) { v.file = c->file; if (c->kind == "x" || c->kind == "xgen") v.xsource = c->source; } }
-        if (op.has("xsource")) v.xsource = op.getStr("xsource");
         else if (op.has("hex")) {
           std::string img = sim::fromHex(op.getStr("hex"));
           while (img.size() % 4) img.push_back('\0');
           uint32_t words = (uint32_t)(img.size() / 4);
           for (int q = 0; q < 4; q++) v.file.push_back((char)(words >> (8 * q)));
-          v.file += img;
+          // The file may stop 1-3 bytes inside its last word (the X-hosted compiler writes such
+          // images); the missing bytes read as zero.
+          unsigned cut = img.size() >= 8 ? (unsigned)(op.getU64("tail_cut") % 4) : 0;
+          v.file += img.substr(0, img.size() - cut);
+          v.tailCut = cut;
         }
+        if (op.has("xsource")) v.xsource = op.getStr("xsource");
         v.progName = op.getStr("corpus", op.getStr("from_corpus", "generated"));
       } else if (k == "input") v.input = sim::fromHex(op.getStr("hex"));
       else if (k == "options") { v.trace = op.getBool("trace"); if (op.has("max_cycles")) { v.hasMax = true; v.maxCycles = op.getU64("max_cycles"); } }
@@ -469,6 +480,7 @@ public:
       uint32_t words = 0; std::memcpy(&words, v.file.data(), 4);
       size_t bytes = (size_t)words * 4;
       v.image = 4 + bytes <= v.file.size() ? v.file.substr(4, bytes) : v.file.substr(4);
+      while (v.image.size() < bytes && v.image.size() < 800000) v.image.push_back('\0');     // bytes the file does not have are zero
     }
     return v;
   }
@@ -584,6 +596,7 @@ public:
     o.simInstr = steps;
     std::string imgClass = v.progName != "generated" ? "corpus" : readUnwritten ? "reads_unwritten" : "generated";
     sim::g_log.evs("image", v.progName, sim::hashStr(v.file));
+    if (v.tailCut) o.count("fault.file_ends_inside_last_word");
     // Where the defined part of the run ends: EXIT, or `steps` instructions (domain cut / budget).
     uint64_t stopAfter = exited ? 0 : steps;
     std::vector<Host> hosts; std::vector<int> tool;
@@ -815,6 +828,7 @@ public:
       if (h.padSeed) o.count("fault.heap_padding"); if (h.shuffle) o.count("fault.heap_recycle_shuffle"); if (h.baseShift) o.count("fault.heap_base_shift");
       o.count("fault.stack_mode_" + std::to_string(h.stackMode)); if (h.shift) o.count("fault.stack_shift");
       if (h.envPad || !h.lang.empty()) o.count("fault.environment");
+      if (h.err) o.count("fault.errno_left_behind");
       if (pos > 0) o.count("fault.history_position_gt0");
       if (sim::heap::counters.recycled) o.count("probe.recycled_heap_block_reused");
       if (sim::heap::counters.overflowToMalloc) o.count("probe.arena_overflow_to_malloc");
